@@ -11,15 +11,15 @@ A_PLAN = "A-PLAN: the executor contracts require a well-formed plan (symmetric d
 
 PROPS = {
     "C01": {"rt": ["rt_planner", "rt_executor", "rt_sigchld"], "level": "proof", "assumes": [A_PY, A_OS, A_PLAN]},
-    "C02": {"rt": ["rt_planner", "rt_executor", "rt_deps", "rt_identifiers"], "level": "proof", "assumes": [A_PY, A_PLAN]},
+    "C02": {"rt": ["rt_planner", "rt_executor", "rt_deps", "rt_identifiers", "rt_versions"], "level": "proof", "assumes": [A_PY, A_PLAN]},
     "C03": {"rt": ["rt_executor", "rt_sigchld", "rt_env"], "level": "proof", "assumes": [A_PY, A_OS, A_PLAN]},
-    "C04": {"rt": ["rt_executor", "rt_env"], "level": "proof", "assumes": [A_PY, A_OS, A_PLAN]},
+    "C04": {"rt": ["rt_executor", "rt_env", "rt_parsing"], "level": "proof", "assumes": [A_PY, A_OS, A_PLAN]},
     "C05": {"rt": ["rt_versions", "rt_sqlmodel"], "level": "proof", "assumes": [A_PY, A_GIT, A_SQL]},
-    "C06": {"rt": ["rt_tee", "rt_crash", "rt_archive", "rt_sigchld", "rt_sqlmodel", "rt_fs"], "level": "proof", "assumes": [A_PY, A_SQL, A_LIB]},
-    "C07": {"rt": ["rt_env", "rt_planner"], "level": "proof", "assumes": [A_PY, A_LIB]},
-    "C08": {"rt": ["rt_versions", "rt_sqlmodel", "rt_env", "rt_planner"], "level": "proof", "assumes": [A_PY, A_SQL, A_LIB]},
-    "C09": {"rt": ["rt_executor", "rt_sigchld", "rt_planner"], "level": "proof", "assumes": [A_PY, A_OS, A_SIG, A_PLAN]},
-    "C10": {"rt": ["rt_tee"], "level": "proof", "assumes": [A_PY, A_OS, A_LIB]},
+    "C06": {"rt": ["rt_tee", "rt_crash", "rt_archive", "rt_sigchld", "rt_sqlmodel", "rt_fs", "rt_versions"], "level": "proof", "assumes": [A_PY, A_SQL, A_LIB]},
+    "C07": {"rt": ["rt_env", "rt_planner", "rt_versions", "rt_parsing", "rt_deps"], "level": "proof", "assumes": [A_PY, A_LIB]},
+    "C08": {"rt": ["rt_versions", "rt_sqlmodel", "rt_env", "rt_planner", "rt_fs"], "level": "proof", "assumes": [A_PY, A_SQL, A_LIB]},
+    "C09": {"rt": ["rt_executor", "rt_sigchld", "rt_planner", "rt_deps"], "level": "proof", "assumes": [A_PY, A_OS, A_SIG, A_PLAN]},
+    "C10": {"rt": ["rt_tee", "rt_parsing", "rt_env"], "level": "proof", "assumes": [A_PY, A_OS, A_LIB]},
     "C11": {"rt": ["rt_traverse", "rt_archive", "rt_sqlmodel", "rt_identifiers"], "level": "proof", "assumes": [A_PY, A_SQL, A_LIB]},
     "C12": {"rt": ["rt_archive", "rt_sqlmodel"], "level": "proof", "assumes": [A_PY, A_SQL, A_LIB]},
     "C13": {"rt": ["rt_fs", "rt_identifiers", "rt_sqlmodel"], "level": "proof", "assumes": [A_PY, A_LIB]},
@@ -27,7 +27,7 @@ PROPS = {
     "C15": {"rt": ["rt_parsing", "rt_identifiers"], "level": "proof", "assumes": [A_PY, A_LIB]},
     "C16": {"rt": ["rt_abort", "rt_abort_cli", "rt_env"], "level": "proof", "assumes": [A_PY, A_OS, A_SIG]},
     "C17": {"rt": ["rt_fs", "rt_versions"], "level": "proof", "assumes": [A_PY, A_LIB]},
-    "C18": {"rt": ["rt_fs", "rt_planner", "rt_parsing"], "level": "proof", "assumes": [A_PY, A_LIB]},
+    "C18": {"rt": ["rt_fs", "rt_planner", "rt_parsing", "rt_deps"], "level": "proof", "assumes": [A_PY, A_LIB]},
     "C19": {"rt": ["rt_parsing"], "level": "proof", "assumes": [A_PY]},
-    "C20": {"rt": ["rt_identifiers", "rt_deps", "rt_parsing", "rt_versions"], "level": "proof", "assumes": [A_PY, A_LIB]},
+    "C20": {"rt": ["rt_identifiers", "rt_deps", "rt_parsing", "rt_versions", "rt_sqlmodel"], "level": "proof", "assumes": [A_PY, A_LIB]},
 }
